@@ -22,12 +22,19 @@ EXPLANATION = ("B1 identifier octet - decided by exhaustive literal evaluation: 
                "length octets and the content - the payload octets, resp. the encodings of the children in order -, read off the final buffer (a rope of "
                "segments with positions as formal sums of segment lengths, rules/rope.py; a length that is computed by a sizing pass instead of measured - the sum of SZ(child) - is accepted iff SZ(t) = octets appended for t, proved by induction over the tree with the identifier / length octet counts predicted vs written decided on the threshold partition: B4.encoder-sizing), so it does not matter whether the length is written before the content or a "
                "placeholder is patched / replaced / inserted afterwards; the length octets are write_length(L), constants or L's low octet with L formally the content length, "
-               "and are evaluated at every change point of the partition induced by the branch conditions on L and by write_length's own against the minimal definite form; B7 the TLV parser's children loop ends only when the content is used up, keeps every child and continues with its remainder, every error path is the failure of one of its primitives or the nesting bound, and what a child is given as its depth is the entry depth plus one (not a value that grows from sibling to sibling); B2m/B5 the two arithmetic functions - "
-               "write_length and the INTEGER/ENUMERATED content encoder - are functions of one integer whose every branch condition is a "
-               "comparison of the (possibly complemented) value shifted right by a constant with a constant (checked); such conditions "
+               "and are evaluated at every change point of the partition induced by the branch conditions on L and by write_length's own against the minimal definite form; B7 the TLV parser's children loop ends only when the content is used up, keeps every child and continues with its remainder, every error path is the failure of one of its primitives or the nesting bound, and what a child is given as its depth is the entry depth plus one (not a value that grows from sibling to sibling); "
+               "and, by exact literal evaluation of the public TLV parser on the encodings of small trees (constructed elements with 0..4 children: an empty constructed element of every class alone, nested, "
+               "first / middle / last among siblings; a first child that looks like an end-of-contents marker; every length in the minimal and in zero-padded long forms; trailing octets that look like an element), "
+               "the answer is Ok((the trailer, the tree an independent decoder written in the rule reads)); B2m the length writer is a function of one integer whose every branch condition is a "
+               "comparison of the value shifted right by a constant with a constant (checked); such conditions "
                "can change only at finitely many change points, so the path taken and the octets emitted are decided exactly by "
-               "evaluating the enumerated paths' conditions and outputs at every change point and its neighbours (lengths over 0..2^64-1, "
-               "integers over all of i64) against the minimal definite length form and the shortest two's-complement form. Not decided: "
+               "evaluating the function on the literal length at every change point and its neighbours (0..2^64-1) against the minimal definite length form; "
+               "B5 the INTEGER / ENUMERATED contents writer is decided as a function, whatever its shape (shift-and-count loop, to_be_bytes with the leading sign octets skipped by take_while / position / "
+               "leading_zeros arithmetic, a shift-and-mask loop): it is interpreted exactly on each value of a finite partition of i64 - for every number of significant octets 1..8 under both signs the product of "
+               "top octet {00 01 7F 80 FE FF, its own constants} x lower octets {all 00 / FF / 5A, one 00 / FF / 01 / FE at each position}, the boundaries +-2^(8k-1), +-2^(8k) and every power of two with their "
+               "neighbours, the change points of its own threshold comparisons and its own constants, 0, +-1, i64::MIN / MAX - and the payload it returns must be the shortest two's-complement octets (X.690 8.3) "
+               "computed in the rule; that it tells values apart only by threshold comparisons and by looking at the representation (octets, masks, sign, bit counts), which is what the partition is the "
+               "product of, is checked on its symbolic paths (B5.partition-covers-conditions). Not decided: "
                "round-trip equality of whole trees taken whole.")
 TRUSTED = ['nom bits/bytes primitives', 'to_be_bytes']
 UNDECIDED = ['round-trip equality of arbitrary trees taken whole (its necessary conditions B1-B5 are decided)']
@@ -397,6 +404,168 @@ def check_tlv_parser(ctx, f, R):
     ctx.floor(R, 'generic iterations of the children loop', n_it, 1)
     ctx.floor(R, 'error paths of the TLV parser', n_err, 4)
 
+# ---------------------------------------------------------------------------------------------------- B7 on literal input
+# An independent BER decoder / encoder for definite lengths and tag numbers below 31 (X.690 8.1), used to state what the TLV parser
+# must answer on literal input.  A tree is (class 0..3, number, bytes) for a primitive and (class, number, [children]) for a
+# constructed element.
+
+def ber_ref_decode(b):
+    """(tree, rest) of the one element at the head of b, which must be there completely (ValueError otherwise)"""
+    if len(b) < 2 or b[0] & 0x1f == 0x1f:
+        raise ValueError('header')
+    cls, cons, num = b[0] >> 6, (b[0] >> 5) & 1, b[0] & 0x1f
+    ln, p = b[1], 2
+    if ln >= 0x80:
+        n = ln & 0x7f
+        if n == 0 or len(b) < 2 + n:
+            raise ValueError('length')
+        ln, p = int.from_bytes(b[2:2 + n], 'big'), 2 + n
+    if len(b) < p + ln:
+        raise ValueError('content')
+    content, rest = b[p:p + ln], b[p + ln:]
+    if not cons:
+        return (cls, num, bytes(content)), rest
+    children = []
+    while content:
+        t, content = ber_ref_decode(content)
+        children.append(t)
+    return (cls, num, children), rest
+
+def ber_ref_encode(t, form):
+    """the encoding of a tree with every length written in `form`: 'min' (the minimal definite form) or a number n of length
+    octets for the long form 0x80|n, zero-padded (non-minimal, but valid BER)"""
+    cls, num, pl = t
+    content = bytes(pl) if isinstance(pl, bytes) else b''.join(ber_ref_encode(c, form) for c in pl)
+    L = len(content)
+    if form == 'min':
+        lo = bytes([L]) if L < 128 else (lambda x: bytes([0x80 | len(x)]) + x)(L.to_bytes((L.bit_length() + 7) // 8, 'big'))
+    else:
+        lo = bytes([0x80 | form]) + L.to_bytes(form, 'big')
+    return bytes([cls << 6 | (0 if isinstance(pl, bytes) else 0x20) | num]) + lo + content
+
+def show_tree(t):
+    cls, num, pl = t
+    head = '%s%d' % ('UACP'[cls], num)
+    return head + (':' + (pl.hex() or "''") if isinstance(pl, bytes) else '{' + ', '.join(show_tree(c) for c in pl) + '}')
+
+def has_empty_constructed(t):
+    return not isinstance(t[2], bytes) and (not t[2] or any(has_empty_constructed(c) for c in t[2]))
+
+def check_tlv_literal(ctx, f, R):
+    """"Every valid definite-length BER input, including non-minimal length octets, parses to the tree an independent decoder
+    produces", and trailing bytes are left untouched - decided for the elements whose shape the children loop can get wrong, by
+    exact literal evaluation: the public TLV parser `parse_tag` is interpreted (nom primitives on literal input: rules/nomlit.py;
+    helpers of the workspace inlined; loops run as often as their literal conditions say) on the encodings of small trees whose
+    constructed elements have 0, 1, 2, 3 and 4 children -
+      empty content: an empty constructed element of each class alone, nested in one another, and as first / middle / last / every
+        child among primitive siblings;
+      children: one to four primitive children (empty and non-empty payloads, a first child `00 00` that looks like an
+        end-of-contents marker, a child whose length needs the long form), constructed children with children of their own before and
+        after a sibling;
+    each with every length in the minimal form and in the zero-padded long forms 81 nn / 82 00 nn / 84 00 00 00 nn, the minimal
+    encoding also followed by `5A A5` and by `30 00` (octets that themselves look like an element).  The one outcome must be Ok((the trailer, the tree
+    the reference decoder below reads)).  However the loop is written - test at the top, at the bottom, a cursor, recursion - an
+    element it drops, duplicates or refuses shows as a different answer."""
+    import nomlit
+    P = hirq.Body(f, f.body('lber::parse::parse_tag'))
+    ctx.analysed['bodies'].add(P.path)
+    here = loc(P.root)
+    pb = [b for b, d in P.defs.items() if d['kind'] == 'param' and not d['proj']]
+    if len(pb) != 1:
+        ctx.fail('anchor-missing', 'input of the TLV parser', here, 'parse_tag must take exactly one parameter (its input octets)')
+        return
+    inl = lambda c: c.startswith('lber::parse::') or c.startswith('lber::common::') or c.startswith('<lber::')
+    CLS = {'TagClass::' + n: i for i, n in enumerate(X690_CLASS)}
+    def tree_of(t):
+        if t[0] != 'struct':
+            return None
+        fl = dict(t[2])
+        cls, num, pl = fl.get('class', ('unk',)), fl.get('id', ('unk',)), fl.get('payload', ('unk',))
+        if not (cls[0] == 'ctor' and cls[1] in CLS and num[0] == 'lit' and isinstance(num[1], int) and pl[0] == 'ctor' and len(pl[2]) == 1):
+            return None
+        if pl[1] == 'PL::P':
+            o = known_octets(pl[2][0])
+            return (CLS[cls[1]], num[1], bytes(o)) if o is not None else None
+        if pl[1] == 'PL::C' and pl[2][0][0] in ('vec', 'array'):
+            cs = [tree_of(c) for c in pl[2][0][1]]
+            return (CLS[cls[1]], num[1], cs) if None not in cs else None
+        return None
+    def read(octets):
+        """('ok', rest, tree) | ('other', description)"""
+        I = absx.Interp(f, P, unroll=12, combinators=True, inline=inl, summaries=[nomlit.summary])
+        env = I.param_env()
+        env[pb[0]] = ('lit', bytes(octets))
+        res = [o for o in I.run(env=env) if o.kind in ('val', 'ret', 'div', 'loop')]
+        if len(res) != 1 or res[0].kind not in ('val', 'ret'):
+            return ('other', 'a panic' if [o.kind for o in res] == ['div'] else '%d outcomes (%s)' % (len(res), ', '.join(o.kind for o in res)))
+        r = nomlit.result_of(res[0].val)
+        if r is not None and r[0] == 'ok' and r[1][0] == 'lit' and isinstance(r[1][1], bytes):
+            t = tree_of(r[2])
+            if t is not None:
+                return ('ok', r[1][1], t)
+        if r is not None and r[0] == 'err':
+            return ('other', 'Err(%s)' % r[1][len('Err::'):])
+        return ('other', absx.fmt(res[0].val)[:70])
+    U, A, C, PV = 0, 1, 2, 3
+    E = (U, 16, [])
+    p1, p0, pz, pc = (U, 2, b'\x05'), (U, 4, b''), (U, 0, b''), (C, 7, b'\x01\x02\x03')
+    trees = [E, (C, 0, []), (U, 17, []), (A, 3, []), (PV, 30, []),
+             (U, 16, [E]), (U, 16, [(C, 0, [E])]), (C, 3, [(U, 16, [(U, 17, [])]), (C, 0, [])]),
+             (U, 16, [E, p1]), (U, 16, [p1, E]), (U, 16, [E, E]), (A, 4, [p1, E, pc]), (U, 16, [E, p1, pc]), (U, 16, [p1, pc, E]), (U, 16, [E, E, E]),
+             (U, 16, [(C, 0, []), (U, 17, [])]), (U, 16, [(U, 16, [p1, E]), p0]), (U, 16, [p0, (U, 16, [E, p1])]),
+             (U, 16, [p1]), (U, 16, [p0]), (C, 0, [pc]), (U, 16, [pz, p1]), (U, 16, [p1, pc]), (U, 17, [p1, p0, pc]), (U, 16, [p1, p1, p1, p1]),
+             (U, 16, [(U, 16, [p1]), pc]), (U, 16, [pc, (U, 16, [p1, p0])]), (A, 4, [(U, 16, [(U, 16, [p1]), p0]), pc]),
+             (U, 16, [(U, 4, bytes(range(130))), p1]), (U, 16, [(U, 4, b'\x00\x00\x30\x00')])]
+    forms = ('min', 1, 2, 4)
+    trailers = (b'', b'\x5a\xa5', b'\x30\x00')
+    got = {}
+    for ti, t in enumerate(trees):
+        for fm in forms:
+            enc = ber_ref_encode(t, fm)
+            assert ber_ref_decode(enc) == (t, b'')          # (the reference decoder and encoder are inverses on the trees used here)
+            for tr in (trailers if fm == 'min' else trailers[:1]):
+                got[(ti, fm, tr)] = (read(enc + tr), enc + tr)
+    bad = {'empty': [], 'children': [], 'length': [], 'trailer': [], 'identifier': []}
+    def shape(t):
+        return bytes(t[2]) if isinstance(t[2], bytes) else [shape(c) for c in t[2]]
+    for (ti, fm, tr), (g, inp) in sorted(got.items(), key=lambda kv: (kv[0][0], str(kv[0][1]), kv[0][2])):
+        t = trees[ti]
+        if g == ('ok', tr, t):
+            continue
+        if got[(ti, 'min', b'')][0] != ('ok', b'', t):
+            g0 = got[(ti, 'min', b'')][0]
+            # (the right nesting and payloads under a wrong class / number: the identifier octet is misread - B1's matter -, not the children loop)
+            kind = 'identifier' if g0[0] == 'ok' and g0[1] == b'' and shape(g0[2]) == shape(t) else 'empty' if has_empty_constructed(t) else 'children'
+            if (fm, tr) != ('min', b''):
+                continue          # (reported once, on the plain encoding)
+        else:
+            kind = 'length' if fm != 'min' else 'trailer'
+        answer = ('Ok((rest %s, %s))' % (hexs(g[1]), show_tree(g[2]))) if g[0] == 'ok' else g[1]
+        bad[kind].append('`%s` is answered %s, an independent decoder reads Ok((rest %s, %s))' % (hexs(inp) if len(inp) <= 24 else hexs(inp[:20]) + ' ..', answer, hexs(tr), show_tree(t)))
+    n = len(got)
+    w = bad['empty']
+    ctx.add(R + '.empty-constructed-element-parses', 'constructed, no content octets', here, not w,
+            'a constructed element with no content octets (`30 00`: a SEQUENCE OF with no members, an entry without attributes, an empty list of controls or referrals) is valid '
+            'definite-length BER and parses to an element without children, wherever it stands - alone, nested, first / middle / last among its siblings '
+            '(the public TLV parser interpreted exactly on %d literal encodings; wrong on %d trees with an empty constructed element): %s' % (n, len(w), '; '.join(w[:3])))
+    w = bad['children']
+    ctx.add(R + '.valid-input-parses-to-reference-tree', 'children', here, not w,
+            'every valid definite-length input parses to the tree an independent decoder produces (the public TLV parser interpreted exactly on %d literal encodings of constructed '
+            'elements with 1..4 children; wrong on %d trees): %s' % (n, len(w), '; '.join(w[:3])))
+    w = bad['identifier']
+    ctx.add(R + '.valid-input-parses-to-reference-tree', 'class and number', here, not w,
+            'every element of the tree carries the class and tag number of its identifier octet (interpreted exactly on %d literal encodings; nesting and payloads right, class or number '
+            'wrong on %d trees): %s' % (n, len(w), '; '.join(w[:3])))
+    w = bad['length']
+    ctx.add(R + '.valid-input-parses-to-reference-tree', 'non-minimal length octets', here, not w,
+            'a valid definite-length input whose lengths are written in a zero-padded long form (81 nn, 82 00 nn, 84 00 00 00 nn) parses to the same tree as its minimal encoding '
+            '(interpreted exactly on %d literal encodings; wrong on %d that are right in the minimal form): %s' % (n, len(w), '; '.join(w[:3])))
+    w = bad['trailer']
+    ctx.add(R + '.valid-input-parses-to-reference-tree', 'trailing bytes untouched', here, not w,
+            'the octets after the element are handed back untouched and do not change the tree (interpreted exactly on %d literal encodings followed by nothing, `5A A5` and `30 00`; '
+            'wrong on %d that are right without the trailer): %s' % (n, len(w), '; '.join(w[:3])))
+    ctx.floor(R, 'literal encodings the TLV parser was interpreted on', n, 180)
+
 X690_CLASS = ('Universal', 'Application', 'Context', 'Private')          # X.690 8.1.2.2: bits 8-7 of the identifier octet
 X690_STRUCTURE = ('Primitive', 'Constructed')                             # X.690 8.1.2.5: bit 6
 
@@ -536,6 +705,168 @@ def check_identifier_octet(ctx, f):
                     wrong.append(((X690_CLASS[c], X690_STRUCTURE[s], n), [[hex(x) if x is not None else '?' for x in g[:2]] for k, g in res][:2], hex(want)))
     ctx.add('B1.writer-high-tags', 'id > 30', loc(W.root), not wrong,
             'identifier octet for ids > 30 does not use the 0x1F escape followed by the number (triple, first octets, expected first octet): %s' % wrong[:3])
+
+def shortest_twos_complement(v):
+    """X.690 8.3: the contents octets of INTEGER v - two's complement, big-endian, and as few octets as hold the value (the first
+    nine bits are neither all zero nor all one)"""
+    n = 1
+    while not (-(1 << (8 * n - 1)) <= v < (1 << (8 * n - 1))):
+        n += 1
+    return list(v.to_bytes(n, 'big', signed=True))
+
+def known_octets(t):
+    """the octets a term of the interpreter stands for when every one of them is known (a literal byte string, a vector / array of
+    literal octets, one appended to the other, an owned copy of such), else None"""
+    if t[0] == 'lit' and isinstance(t[1], bytes):
+        return list(t[1])
+    if t[0] in ('vec', 'array'):
+        if all(x[0] == 'lit' and isinstance(x[1], int) and not isinstance(x[1], bool) and 0 <= x[1] <= 255 for x in t[1]):
+            return [x[1] for x in t[1]]
+        return None
+    if t[0] == 'concat':
+        a, b = known_octets(t[1]), known_octets(t[2])
+        return a + b if a is not None and b is not None else None
+    if t[0] == 'call' and t[1].rsplit('::', 1)[-1] in ('to_vec', 'to_owned', 'into_vec', 'into', 'from', 'clone', 'collect', 'into_boxed_slice') and len(t[2]) == 1:
+        return known_octets(t[2][0])
+    return None
+
+REPR_CALLS = ('to_be_bytes', 'to_le_bytes', 'to_ne_bytes', 'leading_zeros', 'leading_ones', 'trailing_zeros', 'trailing_ones', 'count_ones', 'count_zeros',
+              'ilog2', 'checked_ilog2', 'unsigned_abs', 'is_negative', 'is_positive', 'signum')
+
+def through_representation(t, var):
+    """Every occurrence of the integer variable in the term t is inside (i) a comparison of the variable - complemented, negated,
+    converted, shifted by a constant, masked with a constant - with a constant, (ii) such a shifted / masked form itself (an
+    octet or a bit field of the representation), or (iii) a call of one of core's functions that hand out the two's-complement
+    representation (its octets, its sign, counts of its leading / trailing / set bits) on the variable in such a form.  What such a term can tell about the value is what the octets, the sign and
+    the bit counts tell."""
+    def plain(x):
+        while True:
+            if x == var:
+                return True
+            if x[0] in ('cast', 'bitnot', 'neg'):
+                x = x[1]; continue
+            if x[0] == 'bin' and x[1] in ('Shr', 'Shl', 'BitAnd', 'BitOr', 'BitXor') and x[3][0] == 'lit':
+                x = x[2]; continue          # (a shift by a constant, a mask: bits of the representation)
+            if x[0] == 'bin' and x[1] in ('BitAnd', 'BitOr', 'BitXor') and x[2][0] == 'lit':
+                x = x[3]; continue
+            return False
+    def rec(x):
+        if not isinstance(x, tuple) or not x or not thresholds.mentions(x, var):
+            return True
+        if x == var:
+            return False
+        if x[0] == 'bin' and x[1] in thresholds.CMP and thresholds.atom_ok(x, var):
+            return True
+        if x[0] == 'bin' and x[1] in thresholds.CMP and ((plain(x[2]) and x[3][0] == 'lit') or (plain(x[3]) and x[2][0] == 'lit')):
+            return True
+        if x[0] in ('cast', 'bin') and plain(x):
+            return True
+        if x[0] == 'call' and isinstance(x[1], str) and x[1].startswith('core::num::<impl ') and x[1].rsplit('::', 1)[-1] in REPR_CALLS and len(x[2]) == 1 and plain(x[2][0]):
+            return True
+        return all(rec(y) for y in x if isinstance(y, tuple))
+    return rec(t)
+
+def integer_partition(consts):
+    """The values of i64 the INTEGER writer is evaluated on.  A writer of contents octets can tell values apart by their sign, by
+    how many leading octets of the two's-complement form merely repeat the sign, by the top bit of the first octet that does
+    not, and - rightly or wrongly - by octets further down being 0x00 / 0xFF (or one of its own constants) themselves; the
+    partition is the product of exactly these features, for every number of significant octets 1..8 and both fills:
+      top octet      00 01 7F 80 FE FF and the writer's own constants (with their neighbours)
+      lower octets   all 00 / all FF / all 5A / all c; 5A everywhere but one 00 resp. one FF, at every position; 00 everywhere but one
+                     01, FF everywhere but one FE, at every position (256, 512, 0x010000, 0x01000001, -257, -65537, 0x00FF00FF.. are of
+                     these kinds)
+    together with, for every octet count k, the boundary values +-2^(8k-1), +-2^(8k) and their neighbours, every power of two and
+    its neighbours under both signs and complemented (where a count of leading bits changes), 0, +-1, i64::MIN, i64::MAX."""
+    LO, HI = -2 ** 63, 2 ** 63 - 1
+    pts = {0, 1, -1, LO, LO + 1, HI, HI - 1}
+    for k in range(1, 9):
+        for c in (2 ** (8 * k - 1), 2 ** (8 * k)):
+            pts |= {c - 1, c, c + 1, -c - 1, -c, -c + 1}
+    for k in range(0, 64):
+        for x in ((1 << k) - 1, 1 << k, (1 << k) + 1):
+            pts |= {x, -x, ~x}
+    cs = sorted({c & 0xff for c in consts} | {(c + d) & 0xff for c in consts for d in (-1, 1) if 0 <= c <= 255})
+    tops = sorted({0x00, 0x01, 0x7f, 0x80, 0xfe, 0xff} | set(cs))
+    for n in range(1, 9):
+        m = n - 1
+        lows = {b'\x00' * m, b'\xff' * m, b'\x5a' * m} | {bytes([c]) * m for c in cs}
+        for j in range(m):
+            for bg, x in ((0x5a, 0x00), (0x5a, 0xff), (0x00, 0x01), (0xff, 0xfe), (0x00, 0xff), (0xff, 0x00)):
+                lows.add(bytes([bg]) * j + bytes([x]) + bytes([bg]) * (m - j - 1))
+        for top in tops:
+            for low in lows:
+                for fill in (0x00, 0xff):
+                    pts.add(int.from_bytes(bytes([fill]) * (8 - n) + bytes([top]) + low, 'big', signed=True))
+    return sorted(p for p in pts if LO <= p <= HI)
+
+def check_integer_writer(ctx, f, len8):
+    """B5.  INTEGER and ENUMERATED contents are the shortest two's-complement octets of the value, for every i64 - decided on the
+    FUNCTION the one writer behind both computes, not on how it is written (a shift-and-count loop with a sign-bit test,
+    `to_be_bytes` with the leading sign octets skipped by take_while / position / leading_zeros arithmetic, a match on ranges):
+    its typed HIR is interpreted *exactly* on one literal value at a time - conditions, arithmetic (with the debug profile's
+    overflow checks), iterator adaptors and searches over the literal octets fold, loops run as often as their literal conditions
+    say - and the octets of the primitive payload it returns are compared with X.690 8.3 computed here.  The values: the partition
+    of `integer_partition` (product of the features by which a contents-octet writer can tell values apart) joined with every
+    change point, and its neighbours, of the threshold comparisons found on the writer's symbolic paths (so a constant of the
+    writer's own - `inner == 1616` - is a member).
+    partition-covers-conditions: on its symbolic paths the writer looks at the value only through comparisons of the (complemented,
+    shifted) value with constants and through its two's-complement representation (octets, sign, bit counts); anything else -
+    arithmetic on the value, a comparison with another parameter - is a way of telling values apart the partition was not built for
+    and fails closed."""
+    IE = hirq.Body(f, f.body('lber::structures::integer::i_e_into_structure'))
+    ctx.analysed['bodies'].add(IE.path)
+    here = loc(IE.root)
+    ints = [(b, d) for b, d in IE.defs.items() if d['kind'] == 'param' and not d['proj'] and hirq.strip_refs((d.get('pat') or {}).get('ty') or '') == 'i64']
+    if len(ints) != 1:
+        ctx.fail('anchor-missing', 'value parameter of the INTEGER writer', here, 'the INTEGER / ENUMERATED writer must take exactly one i64 (the value)')
+        return
+    ib, INNER = ints[0][0], ('param', ints[0][1]['name'])
+    # the symbolic paths, for the conditions they branch on (every outcome counts, finished or not); a loop that forks on the symbolic
+    # value in every iteration is unrolled less deep when the paths get too many - the same conditions come back in every iteration
+    iouts = None
+    for depth in (10, 6, 4, 3, 2, 1):
+        try:
+            iouts = absx.Interp(f, IE, unroll=depth, summaries=[len8]).run()
+            break
+        except absx.TooManyPaths:
+            continue
+    if iouts is None:
+        ctx.fail('B5.partition-covers-conditions', 'i_e_into_structure', here, 'the paths of the INTEGER writer could not be enumerated even with its loops run once: what it branches on is not known')
+        return
+    atoms = [sem.strip_site(a) for o in iouts for a, t in o.st.pc if thresholds.mentions(a, INNER)]
+    thr = [a for a in atoms if thresholds.atom_ok(a, INNER)]
+    other = [absx.fmt(a) for a in atoms if not thresholds.atom_ok(a, INNER) and not through_representation(a, INNER)]
+    ctx.add('B5.partition-covers-conditions', 'i_e_into_structure', here, not other,
+            'the INTEGER writer tells values apart by something that is neither a comparison of (+-value >> k) with a constant nor a look at the two\'s-complement representation '
+            '(octets, sign, bit counts): %s - the finite partition its octets are decided on does not cover that' % sorted(set(other))[:3])
+    # the writer's own constants: as octet values of the partition and (a mask, a bound written out) as values, with their neighbours
+    lits = {n_['v'] for n_, c_ in walk(IE.root) if n_['k'] == 'Lit' and isinstance(n_.get('v'), int) and not isinstance(n_.get('v'), bool) and 0 <= n_['v'] < 2 ** 64}
+    consts = {c for c in lits if c <= 255} | {x for c in lits if c > 255 for x in c.to_bytes(8, 'big')}
+    LO, HI = -2 ** 63, 2 ** 63 - 1
+    own = [v for c in lits for x in (c - 1, c, c + 1) for v in (x, -x, ~x)]
+    pts = thresholds.change_points(thr, INNER, LO, HI, extra=integer_partition(consts) + own)
+    wrong, n_panic = [], 0
+    for v in pts:
+        I5 = absx.Interp(f, IE, unroll=70, combinators=True)
+        env = I5.param_env()
+        env[ib] = ('lit', v)
+        res = [o for o in I5.run(env=env) if o.kind in ('val', 'ret', 'div', 'loop')]
+        want = shortest_twos_complement(v)
+        if len(res) != 1 or res[0].kind not in ('val', 'ret'):
+            wrong.append((v, 'a panic (overflow, index out of range)' if [o.kind for o in res] == ['div'] else 'outcomes: %s' % [o.kind for o in res], hexs(want)))
+            continue
+        val = res[0].val
+        pl = dict(val[2]).get('payload') if val[0] == 'struct' else None
+        got = known_octets(pl[2][0]) if pl is not None and pl[0] == 'ctor' and pl[1] == 'PL::P' and len(pl[2]) == 1 else None
+        if got != want:
+            wrong.append((v, hexs(got) if got is not None else 'not a primitive payload of known octets: %s' % absx.fmt(pl if pl is not None else val)[:60], hexs(want)))
+    # the report leads with the values closest to zero (256 -> `00` says more than a 16-digit number)
+    wrong.sort(key=lambda w: (abs(w[0]), w[0] < 0))
+    ctx.add('B5.integer-octets-shortest-twos-complement', 'i_e_into_structure', here, not wrong,
+            'interpreted exactly on each of %d literal values (every octet count 1..8 under both signs: boundaries, 0x00 / 0xFF octets below the top octet, powers of two; the writer\'s own change points): '
+            'for %d of them the contents octets are not the shortest two\'s-complement form - an independent decoder reads another number - at (value, emitted, X.690 8.3): %s'
+            % (len(pts), len(wrong), ['(%d, %s, %s)' % w for w in wrong[:6]]))
+    ctx.floor('B5', 'literal values the INTEGER writer was interpreted on', len(pts), 1982)          # (the partition without any constant of the writer's own)
 
 LVAR = ('var', 'L')
 
@@ -1117,58 +1448,8 @@ def run(ctx):
     ctx.add('B2m.length-octets-minimal', 'write_length', loc(WL.root), not wrong,
             'decided at all %d change points of the branch conditions (lengths 0..2^64-1): the emitted length octets differ from the minimal definite form at %s' % (len(pts), wrong[:4]))
 
-    # ------------------------------------------------------------------ B5 INTEGER / ENUMERATED content octets (threshold partition)
-    IE = hirq.Body(f, f.body('lber::structures::integer::i_e_into_structure'))
-    ctx.analysed['bodies'].add(IE.path)
-    INNER = ('param', 'inner')
-    iouts = [o for o in absx.Interp(f, IE, unroll=10, summaries=[len8]).run() if o.kind == 'val']
-    atoms = [a for o in iouts for a, t in o.st.pc]
-    badform = [absx.fmt(a) for a in atoms if not thresholds.atom_ok(a, INNER)]
-    ctx.add('B5.conditions-are-thresholds', 'i_e_into_structure', loc(IE.root), not badform, 'branch conditions that are not comparisons of (+-inner >> k) with a constant: %s' % badform[:3])
-    LO, HI = -2 ** 63, 2 ** 63 - 1
-    extra = []
-    for k in range(1, 9):
-        for c in (2 ** (8 * k - 1), 2 ** (8 * k)):
-            extra += [c - 1, c, c + 1, -c - 1, -c, -c + 1]
-    pts = thresholds.change_points(atoms, INNER, LO, HI, extra=extra)
-    def ref_int_octets(v):
-        n = 1
-        while not (-(1 << (8 * n - 1)) <= v < (1 << (8 * n - 1))):
-            n += 1
-        return list(v.to_bytes(n, 'big', signed=True))
-    # at every change point (and its neighbours) the function is evaluated *exactly*, on the literal value: conditions and
-    # arithmetic fold (with the debug profile's overflow checks), loops run as many times as their literal conditions say,
-    # and the octets are read off the pushes / extends; nothing of the library is executed, the typed HIR is interpreted
-    wrong = []
-    ib = [b for b, d in IE.defs.items() if d['kind'] == 'param' and d['name'] == 'inner']
-    for v in pts:
-        I5 = absx.Interp(f, IE, unroll=16, combinators=True)
-        env = I5.param_env()
-        env[ib[0]] = ('lit', v)
-        res = [o for o in I5.run(env=env) if o.kind in ('val', 'ret', 'div')]
-        if len(res) != 1 or res[0].kind == 'div':
-            wrong.append((v, 'paths=%d%s' % (len(res), ' (overflow / panic)' if res and res[0].kind == 'div' else ''))); continue
-        o = res[0]
-        got = []
-        okshape = True
-        for e in o.st.ev:
-            if e[0] != 'call':
-                continue
-            m = e[1].rsplit('::', 1)[-1]
-            if m == 'push' and 'Vec' in e[1]:
-                x = e[2][1]
-                got.append(x[1] & 0xff if x[0] == 'lit' and isinstance(x[1], int) else None)
-            elif m in ('extend_from_slice', 'extend', 'append'):
-                a = e[2][1]
-                if a[0] == 'lit' and isinstance(a[1], bytes):
-                    got += list(a[1])
-                else:
-                    okshape = False
-        pl = dict(o.val[2]).get('payload') if o.val[0] == 'struct' else None
-        if not okshape or pl is None or pl[0] != 'ctor' or pl[1] != 'PL::P' or got != ref_int_octets(v):
-            wrong.append((v, [hex(x) if x is not None else '?' for x in got], [hex(x) for x in ref_int_octets(v)]))
-    ctx.add('B5.integer-octets-shortest-twos-complement', 'i_e_into_structure', loc(IE.root), not wrong,
-            'decided at all %d change points of the branch conditions over i64: content octets differ from the shortest two\'s-complement form at (value, emitted, expected): %s' % (len(pts), wrong[:5]))
+    # ------------------------------------------------------------------ B5 INTEGER / ENUMERATED content octets
+    check_integer_writer(ctx, f, len8)
 
     # ------------------------------------------------------------------ B3 constants and pass-through
     T = 'lber::structures::ASNTag>::into_structure'
@@ -1249,4 +1530,5 @@ def run(ctx):
             ctx.add('B4.header-fields', 'primitive=%s' % prim, loc(B.root), okh, 'class/id of the result are not the parsed header fields')
         ctx.add('B4.both-arms', 'primitive+constructed', loc(B.root), seen >= {True, False}, 'no success path for both structures')
     check_tlv_parser(ctx, f, 'B7')
+    check_tlv_literal(ctx, f, 'B7')
     check_encoder(ctx, f, ref_len_octets, pts_wl)
